@@ -114,6 +114,11 @@ impl Check for C09 {
 		pacer::set_mode(pacer::Mode::Pacer);
 		if idx >= ncases(tier) {
 			let which = idx - ncases(tier);
+			if which == 3 {
+				if let Err(pn) = catch(|| linked_settings(ctx)) {
+					ctx.fail(format!("panic: {} :: linked initial settings", pn), "");
+				}
+			}
 			if let Err(pn) = catch(|| long_run(which, ctx)) {
 				ctx.fail(format!("panic: {} :: long run", pn), format!("long run #{}", which));
 			}
@@ -425,6 +430,70 @@ fn run(sc: &Sc, ctx: &mut Ctx) {
 	drop(ht);
 	if !crate::probes::reap_decoder(first, &stats) {
 		ctx.count("decoder_threads_not_exited_after_stop", 1);
+	}
+}
+
+/// initial settings that are LINKED (to a modulator that exists, or to one that does not): both sounds start from the
+/// same parameter values
+fn linked_settings(ctx: &mut Ctx) {
+	let sr = 1u32;
+	let frames: Vec<Frame> = (0..24).map(code).collect();
+	for which_param in 0..3 {
+		for live in [true, false] {
+			for chunk in [1usize, 3, 4] {
+				ctx.evals += 1;
+				let mut b = MockInfoBuilder::new();
+				let id = b.add_modulator(0.5);
+				let info = if live { b.build() } else { MockInfoBuilder::new().build() };
+				let vol: Value<Decibels> = Value::FromModulator { id, mapping: kira::Mapping { input_range: (0.0, 1.0), output_range: (Decibels(-12.0), Decibels(-2.0)), easing: Easing::Linear } };
+				let pan: Value<Panning> = Value::FromModulator { id, mapping: kira::Mapping { input_range: (0.0, 1.0), output_range: (Panning(-0.8), Panning(0.4)), easing: Easing::Linear } };
+				let rate: Value<PlaybackRate> = Value::FromModulator { id, mapping: kira::Mapping { input_range: (0.0, 1.0), output_range: (PlaybackRate(2.0), PlaybackRate(0.5)), easing: Easing::Linear } };
+				let mut sd = rig::static_data(sr, frames.clone());
+				let first = pacer::count();
+				let (dec, stats) = ScriptedDecoder::new(frames.clone(), sr, vec![2, 1, 3], 1);
+				let mut td = StreamingSoundData::from_decoder(dec);
+				match which_param {
+					0 => {
+						sd = sd.volume(vol);
+						td = td.volume(vol);
+					}
+					1 => {
+						sd = sd.panning(pan);
+						td = td.panning(pan);
+					}
+					_ => {
+						sd = sd.playback_rate(rate);
+						td = td.playback_rate(rate);
+					}
+				}
+				let (mut ss, _hs) = sd.into_sound().expect("static");
+				let (mut ts, mut ht) = td.into_sound().map_err(|_| ()).expect("streaming");
+				let mut so = vec![Frame::ZERO; chunk];
+				let mut to = vec![Frame::ZERO; chunk];
+				let what = format!("24-frame sound, initial {} = FromModulator({}) mapped linearly, chunk {}", ["volume (-12..-2 dB)", "panning (-0.8..0.4)", "playback rate (2..0.5)"][which_param], if live { "a modulator at 0.5" } else { "a modulator id that does not exist" }, chunk);
+				'cbs: for cb in 0..6 {
+					pacer::step(first, 2 * chunk as u64 + 8);
+					ss.on_start_processing();
+					ts.on_start_processing();
+					ss.process(&mut so, 1.0, &info);
+					ts.process(&mut to, 1.0, &info);
+					ctx.transitions += 1;
+					for i in 0..chunk {
+						if (so[i].left - to[i].left).abs() > 1e-6 || (so[i].right - to[i].right).abs() > 1e-6 {
+							ctx.fail("streaming output differs from the static sound's :: linked initial settings", format!("{}; callback {} frame {}: static {:?} streaming {:?}", what, cb, i, so[i], to[i]));
+							break 'cbs;
+						}
+					}
+				}
+				ctx.nontrivial_extra += 1;
+				ht.stop(tw(0.0));
+				ts.on_start_processing();
+				ts.process(&mut to, 1.0, &info);
+				drop(ts);
+				drop(ht);
+				crate::probes::reap_decoder(first, &stats);
+			}
+		}
 	}
 }
 
